@@ -106,6 +106,11 @@ def zero_sized():
     Z.append(("zs-array-of-unit-assign", "enum E { A }\npub fn main(x: u8) -> u8 {\n    let mut a = [E::A; 2];\n    a[1] = E::A;\n    x\n}\n"))
     Z.append(("zs-empty-struct", "struct Z {}\npub fn main(x: u8) -> u8 {\n    let z = Z {};\n    x\n}\n"))
     Z.append(("zs-empty-array-index", "pub fn main(x: u8, i: usize) -> u8 {\n    let a: [u8; 0] = [x; 0];\n    a[i]\n}\n"))
+    Z.append(("zs-empty-array-assign-tuple-field", "pub fn main(x: u8, i: usize) -> u8 {\n    let mut a = [(1u8, 2u8); 0];\n    a[i].0 = x;\n    x\n}\n"))
+    Z.append(("zs-empty-array-assign-nested-index", "pub fn main(x: u8, i: usize) -> u8 {\n    let mut a = [[1u8, 2u8]; 0];\n    a[i][1] = x;\n    x\n}\n"))
+    Z.append(("zs-empty-array-assign-struct-field", "struct P { p: u8, q: bool }\npub fn main(x: u8, i: usize) -> u8 {\n    let mut a = [P { p: 1u8, q: true }; 0];\n    a[i].p = x;\n    x\n}\n"))
+    Z.append(("zs-empty-array-assign-flat", "pub fn main(x: u8, i: usize) -> u8 {\n    let mut a = [x; 0];\n    a[i] = x;\n    x\n}\n"))
+    Z.append(("zs-empty-array-opassign", "pub fn main(x: u8, i: usize) -> u8 {\n    let mut a = [x; 0];\n    a[i] += x;\n    x\n}\n"))
     Z.append(("zs-single-empty-array-param", "pub fn main(x: [u8; 0]) -> bool {\n    true\n}\n"))
     return Z
 
